@@ -497,6 +497,49 @@ def ob_godambe_assembly():
             inner = g.args[0]
             okG = g.args[1] is h and isinstance(inner, Tm) and inner.args[0] is h and 'inv' in vrepr(inner.args[1]) and inner.args[1].args[0] is J
         out.append(struct(oid + '.G', bool(okG), 'G = dot(dot(H, inv(J)), H)', fn))
+        # every bootstrap's score is taken with ITS theta adjustment, in linear and in log parameters, and at the right point
+        for log_ in (False, True):
+            adj = reals('adjust', 2)
+            ex2 = Executor()
+            f2 = ex2.func(FILE, 'get_godambe')
+            p0b = VList(reals('p', 2))
+            paths2 = ex2.explore(lambda e: e.apply(f2.node, None, f2.mod, [fe, Tm('pts'), VList([b1, b2]), p0b, data, eps], dict(log=log_, boot_theta_adjusts=VList(list(adj))), 'get_godambe'))
+            rets2 = [q for q in paths2 if q.outcome == 'return']
+            tag = '%s.%s' % (oid, 'log' if log_ else 'linear')
+            if len(rets2) != 1:
+                out.append(struct(tag, False, 'expected exactly one returning path, got %r' % paths2[:2], fn, undecided=True))
+                continue
+            calls2 = [(name, t) for (tg, name, t) in [e for e in rets2[0].log if e[0] == 'call']]
+            gc = [t for n, t in calls2 if n == 'dadi.Godambe.get_grad']
+            hc = [t for n, t in calls2 if n == 'dadi.Godambe.get_hess']
+            okk = len(gc) == 2 and len(hc) == 1
+            detail = ''
+            if okk:
+                for t, b, a_ in zip(gc, (b1, b2), adj):
+                    al = t.args[3]
+                    items = al.items if isinstance(al, VList) else []
+                    good = len(items) == 2 and isinstance(items[0], Tm) and items[0].op == 'call:class:dadi.Spectrum_mod.Spectrum' and items[0].args[0] is b and items[1] is a_ and t.args[2] is eps
+                    if not good:
+                        okk = False
+                        detail = 'get_grad args for %s: %s' % (vrepr(b), vrepr(al)[:160])
+                fname0 = vrepr(gc[0].args[0])
+                want_f = 'log_func' if log_ else 'func'
+                if want_f not in fname0 or ('log_func' in fname0) != log_:
+                    okk = False
+                    detail = 'differentiates %s (expected %s)' % (fname0[:60], want_f)
+                pt = gc[0].args[1]
+                if log_:
+                    good_pt = isinstance(pt, VList) and len(pt.items) == 2 and all(vrepr(x) == 'log(p%d)' % i for i, x in enumerate(pt.items))
+                else:
+                    good_pt = pt is p0b
+                if not good_pt:
+                    okk = False
+                    detail = 'evaluation point %s' % vrepr(pt)[:100]
+                hpt = hc[0].args[1]
+                if (log_ and not (isinstance(hpt, VList) and all(vrepr(x) == 'log(p%d)' % i for i, x in enumerate(hpt.items)))) or (not log_ and hpt is not p0b):
+                    okk = False
+                    detail = 'Hessian evaluation point %s' % vrepr(hpt)[:100]
+            out.append(struct(tag + '.scores', bool(okk), detail or 'get_grad(%s, %s, eps, args=[Spectrum(boot_i), adjust_i]) per bootstrap; Hessian at the same point' % ('log_func' if log_ else 'func', 'log(p0)' if log_ else 'p0'), fn))
         return out
     return go()
 
